@@ -173,6 +173,10 @@ func (ex *Exec) flushAsserts() {
 // assertOne discharges one assertion: PC ∧ ¬c must be unsat.
 func (ex *Exec) assertOne(c *Term, id string) {
 	r, m := ex.check(Not(c), ex.inputTerms())
+	if r == Sat && len(ex.defs) > 0 {
+		// failed under the product abstraction: decide with the exact definitions
+		r, m = ex.check(And(append([]*Term{Not(c)}, ex.defs...)...), ex.inputTerms())
+	}
 	switch r {
 	case Unsat:
 		ex.res.AssertsOK[id]++
@@ -226,7 +230,11 @@ func (p *Program) runPath(opt *Options, s *Solver, fn *ssa.Function, prefix []De
 				want = append(want, o.T)
 			}
 		}
-		r, m := ex.S.Check(ex.pc, nil, want)
+		var extra *Term
+		if len(ex.defs) > 0 {
+			extra = And(ex.defs...)
+		}
+		r, m := ex.S.Check(ex.pc, extra, want)
 		if r == Sat {
 			res.Model = ex.modelToInputs(m)
 			res.Observed = map[string]string{}
